@@ -26,12 +26,12 @@ def env0 : Env := ⟨fun _ _ => false, fun _ => true, fun s => s⟩
 /-! ## Facts about the tables regenerated from the source (re-proved on every build) -/
 
 theorem gen_evaluateCodes : Gen.evaluateCodes =
-    [("Constraint", []), ("RequiredConstraint", ["E003"]), ("OptionalConstraint", []), ("ConstConstraint", ["E004"]),
-     ("EnumConstraint", ["E005", "E006"]), ("TypeConstraint", ["E999", "E007"]), ("RegexConstraint", ["E008"]),
-     ("DirConstraint", ["E009"]), ("AppendOnlyConstraint", ["E010"]), ("RangeConstraint", ["E011"]),
-     ("MaxLengthConstraint", ["E012"]), ("MinLengthConstraint", ["E013"]), ("DateConstraint", ["E014"]),
-     ("Iso8601Constraint", ["E015"]), ("LiteralConstraint", ["E007"]), ("LangConstraint", ["E007"]),
-     ("ConstraintChain", ["E999"])] := by decide
+    [("AppendOnlyConstraint", ["E010"]), ("ConstConstraint", ["E004"]), ("Constraint", []), ("ConstraintChain", ["E999"]),
+     ("DateConstraint", ["E014"]), ("DirConstraint", ["E009"]), ("EnumConstraint", ["E005", "E006"]),
+     ("Iso8601Constraint", ["E015"]), ("LangConstraint", ["E007"]), ("LiteralConstraint", ["E007"]),
+     ("MaxLengthConstraint", ["E012"]), ("MinLengthConstraint", ["E013"]), ("OptionalConstraint", []),
+     ("RangeConstraint", ["E011"]), ("RegexConstraint", ["E008"]), ("RequiredConstraint", ["E003"]),
+     ("TypeConstraint", ["E007", "E999"])] := by decide
 
 theorem gen_parseDispatch : Gen.parseDispatch =
     [("eq", "REQ", "", "RequiredConstraint", 0), ("eq", "OPT", "", "OptionalConstraint", 0), ("eq", "DIR", "", "DirConstraint", 0),
@@ -50,20 +50,24 @@ theorem gen_parseDispatch_slices : ∀ r ∈ Gen.parseDispatch, r.1 = "wrap" →
 theorem gen_literal_before_type :
     (Gen.parseDispatch.map (·.2.1)).idxOf "TYPE[LITERAL]" < (Gen.parseDispatch.map (·.2.1)).idxOf "TYPE[" := by decide
 
-theorem gen_splitPartsChars : Gen.splitPartsChars = ["∧", "[", "(", "]", ")", " "] := by decide
+theorem gen_splitPartsChars : Gen.splitPartsChars = [" ", "(", ")", "[", "]", "∧"] := by decide
 
-theorem gen_typeMap : Gen.typeMap = [("STRING", "str"), ("NUMBER", "int|float"), ("BOOLEAN", "bool"), ("LIST", "list")]
+theorem gen_typeMap : Gen.typeMap = [("BOOLEAN", "bool"), ("LIST", "list"), ("NUMBER", "int|float"), ("STRING", "str")]
     ∧ Gen.typeBoolRejected = ["NUMBER"] := by decide
 
-theorem gen_atomLiterals : Gen.atomLiterals = [("true", "True"), ("false", "False"), ("null", "None")] := by decide
+theorem gen_atomLiterals : Gen.atomLiterals = [("false", "False"), ("null", "None"), ("true", "True")] := by decide
 
-theorem gen_conflict : Gen.conflictClasses = ["RequiredConstraint", "OptionalConstraint", "ConstConstraint", "EnumConstraint"]
+theorem gen_conflict : Gen.conflictClasses = ["ConstConstraint", "EnumConstraint", "OptionalConstraint", "RequiredConstraint"]
     ∧ Gen.conflictCodes = ["E999"] := by decide
 
-theorem gen_policy : Gen.policyMembers = [("REJECT", "REJECT"), ("IGNORE", "IGNORE"), ("WARN", "WARN")]
+theorem gen_policy : Gen.policyMembers = [("IGNORE", "IGNORE"), ("REJECT", "REJECT"), ("WARN", "WARN")]
     ∧ Gen.unknownFieldBranches = [("REJECT", ["E007"], ["error"]), ("WARN", ["W001"], ["warning"])]
     ∧ Gen.policyDefaults = ["REJECT", "except:REJECT"]
     ∧ Gen.missingRequiredCodes = ["E003"] ∧ Gen.severityDefault = "error" := by decide
+
+/-- `RangeConstraint.evaluate` catches at least ValueError and TypeError around `float(value)` (what the model's
+`valueOrTypeError` outcome relies on) -/
+theorem gen_rangeCaught : "ValueError" ∈ Gen.rangeCaught ∧ "TypeError" ∈ Gen.rangeCaught := by decide
 
 /-- running interpreter: only 'e'/'E' lower-case to a text containing 'e' (`_parse_atom`'s float test),
 ASCII '0' heads the digit table and no other digit run starts below U+0080 -/
